@@ -68,6 +68,14 @@ type verifEvent struct {
 type verifEntry struct {
 	id interface{}
 	st *internal.ChannelState
+	// QueueWhileBusy mode: the machine's FIFO of events not yet handled
+	busy    bool
+	pending []verifPending
+}
+
+type verifPending struct {
+	ev   *verifEvent
+	args []interface{}
 }
 
 // VerifGroup is exported so that harnesses in other packages can install pre-states.
@@ -85,9 +93,19 @@ type VerifGroup struct {
 	GetCalls     int
 	SendLog      []datatransfer.EventCode
 	Applied      int
+	// CleanupEntries counts applied transitions whose destination is Cancelling, Failing or Completing
+	CleanupEntries int
 	// DeferNotify: announcements are queued instead of being made inside Send (see apply)
 	DeferNotify bool
 	deferred    []func()
+	// QueueWhileBusy: go-statemachine handles ONE event per step (fsm.go Plan: events[0]) and, while
+	// the entry function of the state runs (machine.go run: busy == 1), collects whatever is sent to
+	// the machine - the entry function's own Trigger included - in a FIFO that is handled, one event
+	// at a time, once the entry function has returned. In this mode the model does the same, so an
+	// event sent from inside an entry function (by the harness, through a hook of the environment
+	// double: "an event arrives while the cleanup is running") is handled BEFORE the CleanupComplete
+	// the entry function triggers at its end.
+	QueueWhileBusy bool
 }
 
 // VerifLastGroup is the group created by the most recent channels.New.
@@ -308,8 +326,32 @@ func (g *VerifGroup) Send(id interface{}, name fsm.EventName, args ...interface{
 		}
 		return nil
 	}
+	if g.QueueWhileBusy {
+		e.pending = append(e.pending, verifPending{ev, args})
+		g.drain(e)
+		return nil
+	}
 	g.apply(e, ev, args)
 	return nil
+}
+
+// drain handles the machine's pending events one at a time, in order (QueueWhileBusy mode); a call
+// made while an entry function is running returns at once (the machine is busy).
+func (g *VerifGroup) drain(e *verifEntry) {
+	if e.busy {
+		return
+	}
+	e.busy = true
+	for len(e.pending) > 0 {
+		p := e.pending[0]
+		e.pending = e.pending[1:]
+		if g.isFinal(e.st.Status) {
+			e.pending = nil // Plan: ClearEvents(ErrTerminated)
+			break
+		}
+		g.apply(e, p.ev, p.args)
+	}
+	e.busy = false
 }
 
 func (g *VerifGroup) apply(e *verifEntry, ev *verifEvent, args []interface{}) {
@@ -331,6 +373,9 @@ func (g *VerifGroup) apply(e *verifEntry, ev *verifEvent, args []interface{}) {
 	skipHandler := zz.TypeName(dest) == "fsm.recordEvent"
 	if !skipHandler && dest != nil {
 		work.Status = dest.(datatransfer.Status)
+		if IsChannelCleaningUp(work.Status) {
+			g.CleanupEntries++ // ghost: the channel ENTERS Cancelling / Failing / Completing
+		}
 	}
 	e.st = work
 	g.Applied++
@@ -378,6 +423,11 @@ func (c verifCtx) Trigger(event fsm.EventName, args ...interface{}) error {
 	}
 	if ok, _ := applyAction(ev.action, nil, args, true); !ok {
 		return errors.New("Wrong number or type of arguments for event")
+	}
+	if c.g.QueueWhileBusy {
+		c.e.pending = append(c.e.pending, verifPending{ev, args})
+		c.g.drain(c.e)
+		return nil
 	}
 	if c.g.isFinal(c.e.st.Status) {
 		return nil
